@@ -582,7 +582,15 @@ def check_cache_tables(ctx: Ctx) -> None:
         ok = dotted(trip[0]) == sr.args.args[-1].arg and [attr_read(e) for e in trip[1:]] == ["INDICES", "INDPTR"] and attr_read(arg_or_kw(ctor[0], 1, "shape")) == "SHAPE"
     ctx.ob("11.1-cache-sparse", cname(HS, "HDF5FileSingleton", "__read_sparse_array"), ok, "a CSR array must be rebuilt as (data, indices, indptr), shape", node=(ctor or [sr])[0])
     csr = [c for c in walk_body(sw) if isinstance(c, ast.Call) and last_attr(c) == "tocsr"]
-    ctx.ob("11.1-cache-sparse", cname(HS, "HDF5FileSingleton", "__write_sparse_array"), len(csr) == 1, "sparse values must be converted to CSR before their data/indices/indptr are written", node=(csr or [sw])[0])
+    ok = len(csr) == 1
+    if ok:
+        # ... on every path: the reader rebuilds a CSR array whatever was written, so a CSC/BSR value (which also has
+        # indices/indptr, but column- or block-oriented) written as it is comes back transposed or mis-shaped
+        cfg_w = cfg_of(sw)
+        cn_ = cfg_w.node_of(csr[0])
+        writes = [c for c in walk_body(sw) if isinstance(c, ast.Call) and last_attr(c) == "create_dataset"]
+        ok = bool(writes) and all(cfg_w.dominates(cn_, cfg_w.node_of(w_)) for w_ in writes) and not [t for t, _ in branch_conditions(cfg_w, cn_) if cfg_w.kind[t] == "test"]
+    ctx.ob("11.1-cache-sparse", cname(HS, "HDF5FileSingleton", "__write_sparse_array"), ok, "sparse values must be converted to CSR, unconditionally, before their data/indices/indptr are written (the reader always rebuilds a CSR array)", node=(csr or [sw])[0], stmt="tocsr() before the datasets are written")
     hw = {n.attr for n in walk_body(w) if isinstance(n, ast.Attribute) and n.attr == "HASH_TAG"}
     hr = {n.attr for n in walk_body(rh) if isinstance(n, ast.Attribute) and n.attr == "HASH_TAG"}
     ctx.ob("11.1-cache-hash", cname(HS, "HDF5FileSingleton", "read_hashes"), bool(hw) and bool(hr), "the entry hash must be written and read under the same tag (HASH_TAG)", node=rh, stmt="HASH_TAG written and read")
@@ -600,6 +608,33 @@ def check_cache_tables(ctx: Ctx) -> None:
     enc = [c for c in walk_body(w) if isinstance(c, ast.Call) and last_attr(c) == "astype" and dtype_is(arg_or_kw(c, 0, "dtype"), "bytes")]
     dec = [c for c in walk_body(rd) if isinstance(c, ast.Call) and last_attr(c) == "astype" and dtype_is(arg_or_kw(c, 0, "dtype"), "str")]
     ctx.ob("11.1-cache-strings", cname(HS, "HDF5FileSingleton", "read_data"), len(enc) == 1 and len(dec) == 1, "string arrays are written as bytes and must be converted back to str when read", node=(dec or [rd])[0])
+
+
+def check_csv_rows(ctx: Ctx) -> None:
+    """11.1-ds-csv: the text reader of a design space reads every field of a variable from the variable's own rows
+    (``k : k + size`` with the cursor ``k`` advanced by ``size``): bounds, value and the missing-value marker alike."""
+    from gv.cursor import check_cursor_loops
+
+    f = ctx.index.method("algos/design_space.py", "DesignSpace", "from_csv")
+    con = cname("algos/design_space.py", "DesignSpace", "from_csv")
+    loops = [s_ for s_ in stmts_of(f) if isinstance(s_, ast.For) and any(isinstance(c, ast.Call) and last_attr(c) == "add_variable" for c in ast.walk(s_))]
+    ctx.need(len(loops) == 1, "from_csv: the loop that adds the variables was not found")
+    lp = loops[0]
+    incs = [s_ for s_ in ast.walk(lp) if isinstance(s_, ast.AugAssign) and isinstance(s_.op, ast.Add) and isinstance(s_.target, ast.Name)]
+    ctx.need(len(incs) == 1, "from_csv: the row cursor was not found")
+    cur, size = incs[0].target.id, norm_stmt(incs[0].value)
+    check_cursor_loops(ctx, "11.1-ds-csv", con, f, min_loops=1, only={cur})
+    n = 0
+    for sub in ast.walk(lp):
+        if isinstance(sub, ast.Subscript) and isinstance(sub.ctx, ast.Load) and dotted(sub.value) in ("float_data", "str_data") and isinstance(sub.slice, ast.Tuple) and len(sub.slice.elts) == 2:
+            rows = sub.slice.elts[0]
+            n += 1
+            if isinstance(rows, ast.Slice):
+                ok = rows.lower is not None and dotted(rows.lower) == cur and rows.upper is not None and norm_stmt(rows.upper) in (f"{cur} + {size}", f"{size} + {cur}") and rows.step is None
+            else:
+                ok = dotted(rows) == cur  # one row of the variable (its type)
+            ctx.ob("11.1-ds-csv", con, ok, f"`{norm_stmt(sub, 60)}` does not read the rows {cur}:{cur} + {size} of the variable being added: a field (or the missing-value marker) of another variable is attributed to it", node=sub, stmt=f"rows of `{norm_stmt(sub.slice.elts[1], 40)}` are the variable's own")
+    ctx.floor("11.1-ds-csv", 5)
 
 
 def check_problem_tables(ctx: Ctx) -> None:
@@ -679,6 +714,7 @@ def run(ctx: Ctx) -> None:
     check_append(ctx)
     check_pending(ctx)
     check_design_space_tables(ctx)
+    check_csv_rows(ctx)
     check_cache_tables(ctx)
     check_problem_tables(ctx)
     h5py_files_in_with(ctx, "11.4-with", ["algos/_hdf_database.py", "algos/design_space.py", "algos/optimization_problem.py", "algos/database.py", "utils/hdf5.py", "algos/opt/mnbi/mnbi.py"], 6)
